@@ -277,3 +277,65 @@ SCENARIOS = [
              trusted=["math.isclose(a, b, rel_tol, abs_tol) = |a-b| <= max(rel_tol*max(|a|,|b|), abs_tol) (Python documentation), floats as reals"],
              assumptions=["machine arithmetic treated as mathematical (reals) in the tolerance comparison"]),
 ]
+
+
+def s_clone(ctx):
+    """Pattern clone (used by commute()): a cloned pattern must carry every field of the original — value and both
+    tolerances of a Constant, name / check / can_match_none of a Var; a cloned NodePattern keeps op, domain,
+    attributes, flags and check, its inputs are the clones in the same order, swapped iff swap=True."""
+    from onnxscript.rewriter import _pattern_ir as P
+    I = Interp(ctx)
+    v, rel, ab = (ctx.const(n, z3.RealSort()) for n in ("value", "rel_tol", "abs_tol"))
+    c = I.instantiate(P.Constant, [SReal(v), SReal(rel), SReal(ab)], {})
+    c2 = I.call(I.getattr(c, "clone"), [{}])
+    f2 = fields(c2)
+    ctx.check("C06.pattern_ir.clone.constant_keeps_value_and_tolerances",
+              z3.And(term(f2["_value"]) == v, term(f2["_rel_tol"]) == rel, term(f2["_abs_tol"]) == ab),
+              "C06: 'with commute=True the matches are exactly those of the pattern under swaps of the operands of commutative operators'")
+    name = z3.String("var_name")
+    cmn = ctx.choose(2, "can_match_none") == 1
+    chk = Tok("check_fn")
+    var = I.instantiate(P.Var, [SStr(name)], {"check": chk, "can_match_none": cmn})
+    var2 = I.call(I.getattr(var, "clone"), [{}])
+    g = fields(var2)
+    ctx.check("C06.pattern_ir.clone.var_keeps_name_check_and_optionality",
+              z3.And(term(g["_name"]) == name, z3.BoolVal(g["_check"] is chk and g["_can_match_none"] is cmn)), CL_BIND)
+    # NodePattern.clone
+    swap = ctx.choose(2, "swap") == 1
+    a, b = Tok("in_a"), Tok("in_b")
+    a2, b2 = Tok("clone_a"), Tok("clone_b")
+    for t, t2 in ((a, a2), (b, b2)):
+        def cl(m, t2=t2):
+            return t2
+        cl._pyvc_native = True
+        t.clone = cl
+    np_ = SObj(P.NodePattern, "np")
+    dom, opm, attrs, chk2 = Tok("domain"), Tok("op"), {"k": Tok("attrpattern")}, Tok("node_check")
+    aoa = ctx.choose(2, "allow_other_attributes") == 1
+    aoi = ctx.choose(2, "allow_other_inputs") == 1
+    out = Tok("out")
+    out.name = "o"
+    np_.fields.update(domain=dom, op=opm, inputs=[a, b], attributes=attrs, outputs=[out], allow_other_attributes=aoa,
+                      allow_other_inputs=aoi, _check=chk2)
+    made = []
+
+    def m_nodepattern(interp, domain, op, inputs, attributes, outputs, *, allow_other_attributes, allow_other_inputs, check):
+        r = dict(domain=domain, op=op, inputs=list(inputs), attributes=attributes, outputs=list(outputs),
+                 allow_other_attributes=allow_other_attributes, allow_other_inputs=allow_other_inputs, check=check)
+        made.append(r)
+        return r
+    I.models[P.NodePattern] = m_nodepattern
+    node_map = {}
+    r = I.call(I.getattr(np_, "clone"), [node_map, swap])
+    ok = len(made) == 1 and r is made[0]
+    ctx.check("C06.pattern_ir.clone.node_pattern_creates_one_copy", ok, CL)
+    if ok:
+        ctx.check("C06.pattern_ir.clone.node_pattern_keeps_op_domain_attributes_flags_and_check",
+                  r["domain"] is dom and r["op"] is opm and r["attributes"] is attrs and r["allow_other_attributes"] is aoa
+                  and r["allow_other_inputs"] is aoi and r["check"] is chk2 and r["outputs"] == ["o"], CL)
+        ctx.check("C06.pattern_ir.clone.node_pattern_inputs_are_the_clones_swapped_iff_requested",
+                  r["inputs"] == ([b2, a2] if swap else [a2, b2]), CL)
+
+
+SCENARIOS.append(Scenario("C06.pattern_ir.clone", s_clone, [(PREL, "Constant.clone"), (PREL, "Var.clone"), (PREL, "NodePattern.clone"),
+                                                             (PREL, "Constant.__init__"), (PREL, "Var.__init__"), (PREL, "ValuePattern.__init__")]))
